@@ -38,15 +38,15 @@ type modeSpec struct {
 }
 
 var modes = []modeSpec{
-	{"cache-history", 4000, 120000, modeCacheHistory},
-	{"cache-matrix", 1200, 30000, modeCacheMatrix},
-	{"cache-mutation", 1600, 50000, modeCacheMutation},
-	{"subscribe-structured", 1500, 40000, modeSubscribeStructured},
-	{"subscribe-mutation", 1000, 30000, modeSubscribeMutation},
-	{"client-structured", 700, 20000, modeClientStructured(false)},
-	{"client-mutation", 500, 15000, modeClientMutation(false)},
-	{"cli-structured", 1200, 30000, modeClientStructured(true)},
-	{"cli-mutation", 800, 25000, modeClientMutation(true)},
+	{"cache-history", 3200, 45000, modeCacheHistory},               // x 20-50 calls
+	{"cache-matrix", 1200, 15000, modeCacheMatrix},                 // x 3 messages x 6 states + refreshes
+	{"cache-mutation", 1300, 22000, modeCacheMutation},             // x 60-120 mutants
+	{"subscribe-structured", 1300, 20000, modeSubscribeStructured}, // x 8 sessions
+	{"subscribe-mutation", 1000, 15000, modeSubscribeMutation},     // x 12 sessions
+	{"client-structured", 700, 9000, modeClientStructured(false)},  // x 8 streams
+	{"client-mutation", 500, 8000, modeClientMutation(false)},      // x 8 streams
+	{"cli-structured", 1100, 15000, modeClientStructured(true)},    // x 8 streams
+	{"cli-mutation", 800, 12000, modeClientMutation(true)},         // x 8 streams
 }
 
 func body(r *vlib.Run) {
@@ -95,7 +95,7 @@ func main() {
 			"resource exhaustion (multi-GiB messages) is out of scope; watchdogs (60 s) only ever yield 'inconclusive'",
 		},
 		QuickShards: 8, ThoroughShards: 16,
-		MinDistinctQuick: 5000, MinDistinctThorough: 100000,
+		MinDistinctQuick: 20000, MinDistinctThorough: 300000,
 		Body: body,
 	})
 }
